@@ -375,9 +375,10 @@ func (w *respWriter) Write(b []byte) (int, error) { w.writes++; return len(b), n
 func (w *respWriter) WriteHeader(code int)        { w.codes = append(w.codes, code) }
 
 type observed struct {
-	events []event
-	codes  []int
-	writes int
+	events   []event
+	codes    []int
+	writes   int
+	panicked bool
 }
 
 // serveReal provisions the tree as a real http app and serves one request through
@@ -413,7 +414,7 @@ func serveReal(rs []*route, hasErrs bool, errs []*route, q request) (obs observe
 	req = req.WithContext(context.WithValue(req.Context(), traceKey{}, rec))
 	w := &respWriter{h: http.Header{}}
 	srv.ServeHTTP(w, req)
-	return observed{rec.events, w.codes, w.writes}, nil
+	return observed{events: rec.events, codes: w.codes, writes: w.writes}, nil
 }
 
 func pathIndex(p string) string {
@@ -427,6 +428,9 @@ func pathIndex(p string) string {
 
 // canon renders an observation as the canonical answer line.
 func canon(o observed) string {
+	if o.panicked {
+		return "panic"
+	}
 	var t []string
 	for _, e := range o.events {
 		t = append(t, fmt.Sprintf("%d.%s.%s", e.id, pathIndex(e.path), e.err))
